@@ -106,6 +106,7 @@ class _BoundServerSocket(SimSocket):
         self.sent = 0
         self.recv_hook = None
         self.fail_next_send = None
+        self.send_hook = seams.server_send_hook
         self.blocking = True
         self.net = seams.net
         self.addr = None
@@ -133,6 +134,7 @@ class Seams:
         self.key_script = []        # forced private scalars (edge keys)
         self.ftime = FakeTime(kernel, real_time)
         self._saved = []
+        self.server_send_hook = None
         self.logged_errors = []     # (t, message, exception type, exception text) logged at ERROR by the repo
         self.server_threads = []    # UdpServerThread instances started under simulation
         self.server_sockets = []
